@@ -49,8 +49,7 @@ Print Assumptions C31_bag_result_keys.
 (* Pickling (model of Entity.__reduce__ / unpickle_entity / _db_set_(unpickling=True), QueryResult state, SetInstance.__reduce__):
    only loaded, unmodified objects can be pickled; unpickled in a session that has not loaded the object, every attribute has the value
    it had at pickling time; in general the unpickling session's own loaded value wins; if both sessions saw the same database values
-   the unpickled object has equal attribute values; query results keep their items in order; a one-to-many collection wrapper gets its
-   items back (many-to-many: Findings/C31.v) *)
+   the unpickled object has equal attribute values; query results keep their items in order; a collection wrapper gets its items back *)
 Theorem C31_pickle_only_loaded : forall st v p, pickle_entity st v = Ok p -> st = Loaded /\ p = v.
 Proof. exact pickle_entity_ok. Qed.
 Print Assumptions C31_pickle_only_loaded.
@@ -77,10 +76,10 @@ Theorem C31_pickle_query_result : forall (I J : Type) (u : I -> J) fetched fetch
 Proof. exact @query_result_roundtrip. Qed.
 Print Assumptions C31_pickle_query_result.
 
-Theorem C31_pickle_set_except_known : forall items ref_loaded, (forall i, In i items -> ref_loaded i = true) ->
-  unpickle_set OneToMany [] items ref_loaded = items.
-Proof. exact set_roundtrip_one_to_many. Qed.
-Print Assumptions C31_pickle_set_except_known.
+Theorem C31_pickle_set : forall k items ref_loaded here,
+  unpickle_set k [] items ref_loaded = items /\ unpickle_set k here here ref_loaded = here.
+Proof. exact set_roundtrip_both. Qed.
+Print Assumptions C31_pickle_set.
 
 (* non-vacuity: ('a*', ',c') and ('a', '*,c') -- equal after naive joining -- get different keys, and decode back *)
 Example C31_nonvacuous :
